@@ -115,7 +115,7 @@ func checkResult(op string, in *sbom.NodeList, res *sbom.NodeList, start string,
 	if keysOf(got) != keysOf(want) {
 		return engine.Violate(op+"-nodes", "", "start=%s got nodes {%s} want {%s}", start, keysOf(got), keysOf(want))
 	}
-	if len(res.Nodes) != len(got) {
+	if len(res.Nodes) != len(got) && !inputRepeatsIDs {
 		return engine.Violate(op+"-nodes", "dup", "result lists a node twice: %s", gen.ListKey(res))
 	}
 	// node identity: returned nodes are the list's nodes (same attributes)
@@ -144,6 +144,10 @@ func checkResult(op string, in *sbom.NodeList, res *sbom.NodeList, start string,
 	}
 	return nil
 }
+
+// inputRepeatsIDs is set by the cases of the repeated-identifiers group (ill-formed lists that carry one identifier on
+// two node objects): the results are judged as sets of identifiers there. Each worker process runs one case at a time.
+var inputRepeatsIDs bool
 
 func resultKey(res *sbom.NodeList) string {
 	if res == nil {
@@ -424,6 +428,56 @@ func Run(c *engine.Ctx) {
 				}
 			}
 		})
+	}
+
+	// ill-formed lists in which two node objects carry one identifier: every arrangement of the node sequence
+	{
+		c.Group("repeated-identifiers")
+		seqs := [][]string{}
+		for _, multi := range [][]string{{"s", "a", "a", "b"}, {"s", "s", "a", "b"}, {"s", "a", "b", "b"}, {"s", "a", "a", "a", "b"}} {
+			seen := map[string]bool{}
+			gen.Permutations(len(multi), func(p []int) {
+				o := make([]string, len(p))
+				for i, j := range p {
+					o[i] = multi[j]
+				}
+				if k := strings.Join(o, ","); !seen[k] {
+					seen[k] = true
+					seqs = append(seqs, o)
+				}
+			})
+		}
+		var objs []gen.EdgeSpec
+		for _, f := range []string{"s", "a", "b"} {
+			for _, to := range [][]string{{"a"}, {"b"}, {"a", "b"}, {"b", "a"}, {"s"}} {
+				objs = append(objs, gen.EdgeSpec{From: f, Type: sbom.Edge_contains, To: to})
+			}
+		}
+		c.Bound("repeated-identifiers", fmt.Sprintf("%d node sequences (every arrangement of s,a,a,b / s,s,a,b / s,a,b,b / s,a,a,a,b) x every ordered list of <=2 of %d edge objects x roots {none, s, a} x every start, results judged as identifier sets", len(seqs), len(objs)))
+		for _, seq := range seqs {
+			seq := seq
+			gen.EdgeLists(objs, 2, func(el []gen.EdgeSpec) {
+				for _, roots := range [][]string{nil, {"s"}, {"a"}} {
+					for _, st := range []string{"s", "a", "b"} {
+						spec := gen.ListSpec{Nodes: seq, Edges: el, Roots: roots}
+						st := st
+						c.Case(func() any { return caseDesc{List: spec, Start: st} }, func(t *engine.T) *engine.Violation {
+							inputRepeatsIDs = true
+							defer func() { inputRepeatsIDs = false }()
+							nl := spec.Build()
+							obs, v := runAll(t, nl, st, 4)
+							if v != nil {
+								return v
+							}
+							t.Observe(obs)
+							t.State("rep|" + strings.Join(seq, ",") + "|" + gen.CanonKey(nl) + "@" + st)
+							t.Outcome("repeated-identifiers " + outcomeClass(obs))
+							return nil
+						})
+					}
+				}
+			})
+		}
 	}
 
 	// every edge type (and two undeclared numbers): chains and fans that are only connected through that type
